@@ -486,6 +486,9 @@ func genBufYAMLV2(t *rapid.T, st Style, d *Doc) *Map {
 			if chance(t, "modpath-rnd", 1, 4) {
 				p = genRelDir(t, "modpathr")
 			}
+			if n == 1 && chance(t, "modpath-dot", 1, 2) {
+				p = "." // the single root module: the shape the writer may collapse into the short form
+			}
 			mods = append(mods, mod{path: p})
 			dirs = append(dirs, p)
 		}
